@@ -68,6 +68,7 @@ type Contract struct {
 	NoInline     bool
 	Opaque       bool // treat body as unavailable (verify callers against contract only)
 	Lets         []LetDef
+	Sets         []LetDef // ghost := expr (evaluated in the pre-state) at every call site of this (interface) method
 	Counts       []string // ghost counters incremented at every call site of this (interface) method
 	PureVerdict  string // name of the logic function giving "first error result is nil" as a function of the parameters
 	used         bool
@@ -142,7 +143,7 @@ func normKey(k string) string {
 var clauseKw = map[string]bool{
 	"func": true, "spec": true, "requires": true, "ensures": true, "modifies": true, "loop": true,
 	"panics-unless": true, "macro": true, "ghost": true, "axiom": true, "swallows": true,
-	"noinline": true, "opaque": true, "pure-verdict": true, "counts": true, "let": true, "letold": true, "smt": true, "lemma": true,
+	"noinline": true, "opaque": true, "pure-verdict": true, "counts": true, "sets": true, "let": true, "letold": true, "smt": true, "lemma": true,
 }
 
 type rawItem struct {
@@ -385,6 +386,20 @@ func (db *SpecDB) loadItems(items []rawItem, pkgPath string, trusted bool) {
 		case "swallows":
 			if cur != nil {
 				cur.Swallows = append(cur.Swallows, strings.Fields(rest)[0])
+			}
+		case "sets":
+			if cur != nil {
+				j := strings.Index(rest, "=")
+				if j < 0 {
+					fail(it, "bad sets clause")
+					continue
+				}
+				e, err := parseExpr(rest[j+1:])
+				if err != nil {
+					fail(it, "%v", err)
+					continue
+				}
+				cur.Sets = append(cur.Sets, LetDef{Name: strings.TrimSpace(rest[:j]), E: e})
 			}
 		case "counts":
 			if cur != nil {
